@@ -9,7 +9,8 @@ import sys
 
 sys.path.insert(0, os.path.dirname(os.path.dirname(os.path.abspath(__file__))))
 
-PRELUDE = "from guppylang import guppy\nfrom guppylang.std.builtins import *\n"
+PRELUDE = ("from guppylang import guppy\nfrom guppylang.std.builtins import *\n"
+           "from guppylang.std.mem import with_owned, mem_swap\n")
 
 
 class Compiled:
@@ -53,15 +54,50 @@ def _norm(v):
     return v
 
 
+def _assign_in_place(dst, new):
+    """`*dst = new` for the CPython mirror of a borrowed place: lists and dataclass objects are updated in place"""
+    import dataclasses
+    if isinstance(dst, list):
+        vals = list(new)
+        list.clear(dst)
+        list.extend(dst, vals)
+    elif dataclasses.is_dataclass(dst):
+        for f in dataclasses.fields(dst):
+            setattr(dst, f.name, getattr(new, f.name))
+    else:
+        raise TypeError("cannot mirror a borrowed value of type " + type(dst).__name__)
+
+
+def _with_owned(val, f):
+    """std.mem.with_owned: `(out, *val) = f(*val)`"""
+    out, new = f(val)
+    if new is not val:
+        _assign_in_place(val, new)
+    return out
+
+
+def _mem_swap(x, y):
+    import copy
+    tx, ty = copy.copy(x), copy.copy(y)
+    _assign_in_place(x, ty)
+    _assign_in_place(y, tx)
+
+
 def py_run(src, fname, args):
     """the same source under CPython: ('value', v) | ('panic', msg)"""
     import hugr_interp_validate as hv
-    out, _trace, _fin = hv._py_run(src, fname, list(args), True)
-    if out[0] == "value":
-        return ("value", _norm(out[1]))
-    if out[0] == "panic":
-        return ("panic", out[1])
-    return out
+    env = hv._py_env([])
+    env["with_owned"], env["mem_swap"] = _with_owned, _mem_swap
+    code = compile("from __future__ import annotations\n" + src, "<e2e>", "exec")
+    exec(code, env)  # noqa: S102
+    a2 = [hv._GArr(a) if isinstance(a, list) else a for a in args]
+    try:
+        v = env[fname](*a2)
+    except hv._PyPanic as e:
+        return ("panic", str(e))
+    except ZeroDivisionError:
+        return ("panic", "<op>")
+    return ("value", _norm(hv._wrap_val(hv._norm_py(v))))
 
 
 def agree(g, p):
@@ -175,6 +211,37 @@ def gen_c19_programs(rng, n_each):
         src = (f"@guppy\ndef main(i: int, j: int) -> tuple[int, array[array[int, {cols}], {rows}]]:\n" + "\n".join(body)
                + "\n    return acc, ys\n")
         yield "nested", src, mk_inputs(min(rows, cols), min(rows, cols)), True
+    # a non-idempotent index: successive calls return s, s+1, ... modulo 2 (always a valid row / column for s >= 0)
+    NXT = ("@guppy\ndef nxt(c: array[int, 1]) -> int:\n    c[0] = c[0] + 1\n    return (c[0] - 1) % 2\n\n"
+           "@guppy\ndef bump(a: array[int, 2]) -> None:\n    a[0] = a[0] + 100\n    a[1] = a[1] + 200\n\n")
+    for _ in range(n_each):  # index expressions with side effects: each one is evaluated exactly once per occurrence
+        rows = rng.randrange(2, 4)
+        lit = "array(" + ", ".join(_lit([10 * a, 10 * a + 1]) for a in range(rows)) + ")"
+        body = [f"    ys = {lit}", "    c = array(i)", "    acc = 0"]
+        for _k in range(rng.randrange(1, 4)):
+            r = rng.random()
+            col = rng.choice(["j", "0", "1", "nxt(c)"])
+            if r < 0.3:
+                body.append(f"    ys[nxt(c)][{col}] += {rng.randrange(1, 9)}")
+            elif r < 0.5:
+                body.append(f"    ys[nxt(c)][{col}] = {rng.randrange(100, 200)}")
+            elif r < 0.7:
+                body.append("    bump(ys[nxt(c)])")
+            elif r < 0.85:
+                body.append(f"    acc = acc * 7 + ys[nxt(c)][{col}]")
+            else:
+                body.append(f"    ys[nxt(c)][{col}] = ys[nxt(c)][{col}] + 1")
+        src = (NXT + f"@guppy\ndef main(i: int, j: int) -> tuple[int, int, array[array[int, 2], {rows}]]:\n" + "\n".join(body)
+               + "\n    return acc, c[0], ys\n")
+        yield "index-effects", src, [(0, 0), (0, 1), (1, 0), (1, 1), (2, 0), (5, 1), (0, 2), (1, -1)], True
+    for _ in range(n_each):  # same on a flat array: xs[nxt(c)] op= v, xs[nxt(c)] = xs[nxt(c)] + v
+        n = rng.randrange(2, 6)
+        body = [f"    xs = {_lit([10 + k for k in range(n)])}", "    c = array(i)"]
+        for _k in range(rng.randrange(1, 4)):
+            body.append(rng.choice([f"    xs[nxt(c)] += {rng.randrange(1, 9)}", f"    xs[nxt(c)] = xs[nxt(c)] + {rng.randrange(1, 9)}",
+                                    f"    xs[nxt(c) + j] = {rng.randrange(100, 200)}"]))
+        src = NXT + f"@guppy\ndef main(i: int, j: int) -> tuple[int, array[int, {n}]]:\n" + "\n".join(body) + "\n    return c[0], xs\n"
+        yield "index-effects", src, [(0, 0), (1, 0), (0, 1), (3, n - 2), (2, n - 1), (1, -2)], True
     shapes = []
     for n in range(0, 6):
         for l in range(0, n + 1):
